@@ -22,7 +22,9 @@ class Universe:
         self.alphabet = alphabet
         names = names or ['b', 'a', 'b', 'a', 'c'][:self.n]
         self.names = list(names)
-        self.tasks = [Task(ids[i], name=names[i], tag='t%d' % i) for i in range(self.n)]
+        # 'mix' holds incomparable values (str / None): sorting by it raises part-way through
+        self.mix = ['b', 'a', None, 'c', 'a'][:self.n]
+        self.tasks = [Task(ids[i], name=names[i], tag='t%d' % i, mix=self.mix[i]) for i in range(self.n)]
         self.wbs = []
         for k in range(n_wbs):
             w = WBS()
